@@ -29,7 +29,8 @@ def one(d):
                            if (l.startswith(pid + '/') or l.startswith('regression')) and '[' in l})
             res['checks'][pid] = dict(exit=c.returncode, signatures=sigs[:8])
         res['verdict'] = ('KILLED' if any(v['exit'] == 1 for v in res['checks'].values()) else
-                          'NEUTRALISED' if dm.returncode == 0 else 'SURVIVED')
+                          'NEUTRALISED' if dm.returncode == 0 else
+                          'OUT-OF-DOMAIN' if meta.get('out_of_domain') else 'SURVIVED')
         return d, meta, res
     finally:
         shutil.rmtree(scratch, ignore_errors=True)
@@ -47,11 +48,15 @@ for d in sorted(os.path.dirname(p) for p in glob.glob(os.path.join(here, 'seeded
     meta = json.load(open(os.path.join(d, 'meta.json')))
     res = meta.get('result') or {}
     sig = '; '.join('%s: %s' % (k, ', '.join(v['signatures'][:3])) for k, v in res.get('checks', {}).items())
+    if res.get('verdict') == 'OUT-OF-DOMAIN':
+        sig = 'not claimed: ' + meta['out_of_domain']
     rows.append('| %s | %s | %s | %s | %s |' % (os.path.basename(d), meta['property'], res.get('verdict', 'not run'),
                                              res.get('repo_head', ''), sig))
 with open(os.path.join(here, 'seeded', 'RESULTS.md'), 'w') as f:
     f.write('# Seeded changes vs. quick checks\n\n')
     f.write('NEUTRALISED = the change no longer breaks the property on the repaired tree (its demo passes), '
-            'because a cooperating defect it relied on was fixed.\n\n')
+            'because a cooperating defect it relied on was fixed. OUT-OF-DOMAIN = the change only shows for '
+            'inputs the unchanged library already handles inconsistently, so no check asserts anything there '
+            '(reason in the last column).\n\n')
     f.write('| seeded change | property | verdict | repo HEAD | signatures reported |\n|---|---|---|---|---|\n')
     f.write('\n'.join(rows) + '\n')
